@@ -38,6 +38,20 @@ type c09pPod struct {
 	kube      int // 0 Guaranteed 1 Burstable 2 BestEffort (Status.QOSClass set explicitly)
 	reqC      int64
 	reqM      int64
+	hasOvh    bool  // spec.overhead declared (sandboxed RuntimeClass)
+	ovhC      int64 // -1 = key absent from spec.overhead
+	ovhM      int64
+}
+
+// req is the pod's request read from the DECLARED pod object, independently of util.GetPodRequest: the single
+// container's requests plus spec.overhead.
+func (p *c09pPod) req() (int64, int64) {
+	c, m := c09pP0(p.reqC), c09pP0(p.reqM)
+	if p.hasOvh {
+		c += c09pP0(p.ovhC)
+		m += c09pP0(p.ovhM)
+	}
+	return c, m
 }
 
 type c09pHost struct {
@@ -157,6 +171,9 @@ func c09pBuild(s *c09pScn) (*configuration.ColocationStrategy, *corev1.Node, *co
 		pod.Status.Phase = phases[p.phase]
 		pod.Status.QOSClass = kubes[p.kube]
 		pod.Spec.Containers = []corev1.Container{{Name: "c", Resources: corev1.ResourceRequirements{Requests: c09pRL(p.reqC, p.reqM)}}}
+		if p.hasOvh {
+			pod.Spec.Overhead = c09pRL(p.ovhC, p.ovhM)
+		}
 		pl.Items = append(pl.Items, pod)
 	}
 	nm := &slov1alpha1.NodeMetric{ObjectMeta: metav1.ObjectMeta{Name: "n0"}}
@@ -235,7 +252,8 @@ func c09pEmit(h *vHarness, s *c09pScn) {
 		if p.hasPrio {
 			pv = int64(p.prioVal)
 		}
-		h.Op("pod %d %d %d %d %d %d %d %d %d 0", p.key, vB(p.phase <= 1), p.prioLabel, vB(p.hasPrio), pv, ql, p.kube, c09pP0(p.reqC), c09pP0(p.reqM))
+		rc, rm := p.req()
+		h.Op("pod %d %d %d %d %d %d %d %d %d 0", p.key, vB(p.phase <= 1), p.prioLabel, vB(p.hasPrio), pv, ql, p.kube, rc, rm)
 	}
 	for _, a := range s.hosts {
 		h.Op("host %d %d %d", c09pPrioTok(a.prio), c09pP0(a.cpu), c09pP0(a.mem))
@@ -344,8 +362,9 @@ func c09pOracle(h *vHarness, s *c09pScn, kind int, out [2]int64, pub [2]int64, s
 		for i := range s.pods {
 			p := &s.pods[i]
 			if p.phase <= 1 && p.isProd() {
-				prodReq[0] += c09pP0(p.reqC)
-				prodReq[1] += c09pP0(p.reqM)
+				rc, rm := p.req()
+				prodReq[0] += rc
+				prodReq[1] += rm
 			}
 		}
 		rec := [2]int64{0, 0}
@@ -520,6 +539,16 @@ func c09pGen(r *vRand) *c09pScn {
 		}
 		p.kube = r.Intn(3)
 		p.reqC, p.reqM = c09pAmount(r, cpuHi/5), c09pAmount(r, memHi/5)
+		if r.Chance(1, 3) { // spec.overhead: both dimensions, or only one
+			p.hasOvh = true
+			p.ovhC, p.ovhM = 1+r.Int63n(cpuHi/16), 1+r.Int63n(memHi/16)
+			switch r.Intn(4) {
+			case 0:
+				p.ovhC = -1
+			case 1:
+				p.ovhM = -1
+			}
+		}
 		s.pods = append(s.pods, p)
 	}
 	nh := r.Range(0, 2)
